@@ -18,6 +18,18 @@ from .. import mgmrules as G
 MGM, MGM2 = G.MGM, G.MGM2
 
 
+def resolve_self_field(repo, cls, e):
+    """`self.x` -> 'x'; `self.p` where p is a property returning self.y -> 'y'"""
+    if not (isinstance(e, ast.Attribute) and isinstance(e.value, ast.Name) and e.value.id == "self"):
+        return None
+    m = repo.lookup_method(cls, e.attr)
+    if m is not None and any(norm(d) == "property" for d in m.node.decorator_list):
+        rets = [r for r in walk_no_nested(m.node) if isinstance(r, ast.Return) and r.value is not None]
+        if len(rets) == 1:
+            return resolve_self_field(repo, cls, rets[0].value) or e.attr
+    return e.attr
+
+
 def check(ctx: Ctx):
     repo = ctx.repo
     ctx.decided = ("every value change of MGM / MGM2 is licensed: full set of neighbour gains received, own gain strictly best in "
@@ -33,7 +45,12 @@ def check(ctx: Ctx):
     ctx.rule("R-PAIR", "an MGM2 coordinated change needs the partner's go, a local go taken against every other neighbour, and an accepted offer")
     ctx.rule("R-BESTRESP", "the value moved to is the best response computed in this cycle / the accepted offer's value")
     ctx.rule("R-COSTMODEL", "current cost and candidate cost use the same constraint set and neighbour terms; the variable's own cost is taken at the candidate value")
+    ctx.rule("R-WIRE", "MGM2 offers sent over a serialising transport keep each gain attached to its move")
     ctx.rule("R-RESET", "gains, values, offers and commitment flags are cleared at the end of each cycle")
+    from .. import reprrules as RR
+    n_ = RR.check_parallel_lists(ctx, "R-WIRE", [f for f in repo.all_functions(repo.module(MGM2)) if f.name == "_simple_repr"])
+    if n_ < 1:
+        raise AnalysisError("R-WIRE: the encoder of Mgm2OfferMessage no longer splits the offers into two lists")
 
     # ================================ MGM ======================================
     hg = repo.func(MGM, "MgmComputation._handle_gain_message")
@@ -92,6 +109,28 @@ def check(ctx: Ctx):
                   "all tied neighbours and the variable itself must take part in the (deterministic, symmetric) tie-break")
     if n_moves < 3:
         ctx.bad("R-EXCLUSIVE", "MGM: move sites", hg, hg.node, f"expected 3 value-change sites, found {n_moves}")
+    # random tie-break: when the branch can be taken (break_mode compared with a string), the number this variable enters the draw
+    # with must be the one it announced in its gain message; otherwise every tied variable ranks itself with a private number
+    sg_ = repo.func(MGM, "MgmComputation._send_gain")
+    ctx.touch(sg_)
+    mcls = repo.cls(MGM, "MgmComputation")
+    rb = [i for i in ast.walk(bt.node) if isinstance(i, ast.If) and "self.break_mode" in norm(i.test)]
+    live = [i for i in rb if isinstance(i.test, ast.Compare) and any(isinstance(x, ast.Constant) and isinstance(x.value, str) for x in [i.test.left] + i.test.comparators)]
+    if not live:
+        ctx.note("MGM: the random tie-break branch is unreachable on this tree (break_mode is compared with the `random` module): the lexical tie-break is always used")
+        ctx.ok("R-EXCLUSIVE", "MGM: random tie-break unreachable, lexical order used", bt, rb[0] if rb else bt.node)
+    else:
+        mk_ = [c for c in walk_no_nested(sg_.node) if isinstance(c, ast.Call) and call_name(c) == "MgmGainMessage"]
+        sent = None
+        if len(mk_) == 1 and len(mk_[0].args) >= 2:
+            sent = resolve_self_field(repo, mcls, mk_[0].args[1])
+        own = None
+        for t_ in ast.walk(live[0]):
+            if isinstance(t_, ast.Tuple) and len(t_.elts) == 2 and norm(t_.elts[1]) == "self.name":
+                own = resolve_self_field(repo, mcls, t_.elts[0])
+        ctx.check(sent is not None and own is not None and sent == own, "R-EXCLUSIVE", "MGM: random tie-break ranks this variable with the number it announced", bt, live[0],
+                  f"the gain message carries `{sent}` but the draw uses `{own}`: neighbours rank this variable by one number and the variable ranks itself by another, "
+                  "so several tied neighbours can all believe they won and move together (the global cost may then increase)")
     # reset
     txt = norm(hg.node)
     cl = [c for c in walk_no_nested(hg.node) if isinstance(c, ast.Call) and norm(c.func) in ("self._neighbors_gains.clear", "self._neighbors_values.clear")]
@@ -101,25 +140,7 @@ def check(ctx: Ctx):
     ctx.check(okr, "R-RESET", "MGM: gains and values cleared, then next cycle", hg, cl[0] if cl else hg.node,
               "after the arbitration both per-cycle tables must be cleared before entering the next value phase")
     # cost model
-    lam = [n for n in ast.walk(cb.node) if isinstance(n, ast.Lambda)]
-    okl = len(lam) == 1
-    if okl:
-        x = lam[0].args.args[0].arg
-        t = norm(lam[0].body)
-        okl = f"f({x}) for f in reduced_cs" in t and f"self.variable.cost_for_val({x})" in t and isinstance(lam[0].body, ast.BinOp) and isinstance(lam[0].body.op, ast.Add)
-    ctx.check(okl, "R-COSTMODEL", "MGM: candidate cost = constraints at the candidate + own variable cost at the candidate", cb, lam[0] if lam else cb.node,
-              "the function optimised over the domain must include the variable's own cost for the candidate value")
-    own_cur = [c for c in ast.walk(cb.node) if isinstance(c, ast.Call) and norm(c.func).endswith("cost_for_val") and norm(c.args[0]) == "self.current_value"]
-    ctx.check(not own_cur, "R-COSTMODEL", "MGM: no own cost at the current value on the candidate side", cb, own_cur[0] if own_cur else cb.node,
-              "the best cost must not contain the variable's cost for its *current* value")
-    for f, what in ((cb, "candidate"), (hv, "current")):
-        t = norm(f.node)
-        ok = "for c in self.utilities" in t and "filter_assignment_dict(self._neighbors_values, c.dimensions)" in t and "c.slice(asgt)" in t \
-            and "cost_for_val(self._neighbors_values[" in t
-        ctx.check(ok, "R-COSTMODEL", f"MGM: {what} side = all constraints sliced on neighbours' values + neighbours' variable costs", f, f.node,
-                  "both sides of the gain must be built from the same constraint set and the same neighbour terms")
-    own = [c for c in ast.walk(hv.node) if isinstance(c, ast.Call) and norm(c.func).endswith("cost_for_val") and norm(c.args[0]) == "self.current_value"]
-    ctx.check(len(own) == 1, "R-COSTMODEL", "MGM: current side includes the own cost at the current value", hv, own[0] if own else hv.node, "")
+    G.check_mgm_costmodel(ctx, cb, hv, "R-COSTMODEL")
 
     # ================================ MGM2 =====================================
     hg2 = repo.func(MGM2, "Mgm2Computation._handle_gain_messages")
@@ -150,6 +171,7 @@ def check(ctx: Ctx):
     ctx.check(okt, "R-EXCLUSIVE", "MGM2: tie list = neighbours with the same best gain + self, sorted", hg2, tl[0] if tl else hg2.node, "")
     # committed: go decision
     G.check_go_decision(ctx, hg2, "R-PAIR")
+    G.check_offer_slots(ctx, repo, "R-PAIR")
     ffg2 = FuncFacts(go2.node)
     mv = [c for c in walk_no_nested(go2.node) if isinstance(c, ast.Call) and is_self_attr(c.func, "value_selection")]
     okg = len(mv) == 1 and {(f"{go2.params[2]}.go", True), ("self._can_move", True)} <= G.facts(ffg2, mv[0]) and norm(mv[0].args[0]) == "self._potential_value"
@@ -235,6 +257,11 @@ def check(ctx: Ctx):
 _M = "pydcop/algorithms/mgm.py"
 _M2 = "pydcop/algorithms/mgm2.py"
 VARIANTS = [
+    ("mgm2_accepted_offer_unpacked_in_offerer_order", _M2, "                val_p, self._potential_value, partner_name = random.choice(best_offers)", "                self._potential_value, val_p, partner_name = random.choice(best_offers)", "break", "R-PAIR"),
+    ("mgm_random_tiebreak_enabled_with_private_number", _M, "        if self.break_mode == random:", "        if self.break_mode == \"random\":", "break", "R-EXCLUSIVE"),
+    ("n_mgm_random_tiebreak_enabled_and_repaired", _M, ["        if self.break_mode == random:", "                + [(self.random_nb, self.name)]"], ["        if self.break_mode == \"random\":", "                + [(self.__random__, self.name)]"], "neutral"),
+    ("mgm2_offer_keys_sorted_values_not", _M2, "                var_values, gains = zip(*self.offers.items())\n                r[\"var_values\"] = var_values\n                r[\"gains\"] = gains\n",
+     "                r[\"var_values\"] = sorted(self.offers)\n                r[\"gains\"] = list(self.offers.values())\n", "break", "R-WIRE"),
     ("mgm2_gain_sent_before_accept", _M2, "        if msg.accept:\n            self._potential_value = msg.value\n            self._potential_gain = msg.gain", "        self._send_gain()\n        if msg.accept:\n            self._potential_value = msg.value\n            self._potential_gain = msg.gain", "break", "R-ANNOUNCE"),
     ("mgm_move_without_best", _M, "            if is_best:\n", "            if is_best or self._gain != 0:\n", "break", "R-EXCLUSIVE"),
     ("mgm_tie_always_moves", _M, "            if ties[0] == self.name:\n                if self.logger.isEnabledFor(logging.INFO):\n                    self.logger.info(\n                        f\"Won lexic ties", "            if ties[-1] == self.name or ties[0] == self.name:\n                if self.logger.isEnabledFor(logging.INFO):\n                    self.logger.info(\n                        f\"Won lexic ties", "break", "R-EXCLUSIVE"),
